@@ -171,7 +171,7 @@ func (f *frame) callFunc(fn *ssa.Function, args []Val, bindings []Val, c *ssa.Ca
 	if ct := x.prog.Externs[name]; ct != nil {
 		return f.callContract(ct, fn.Signature, args, pos, name)
 	}
-	if len(fn.Blocks) > 0 && f.depth < x.opts.InlineDepth && inlinable(fn) {
+	if len(fn.Blocks) > 0 && f.depth < x.opts.InlineDepth && inlinable(fn) && (x.prog.isRepoFunc(fn) || x.prog.inlineLib(fn)) {
 		r := x.run(fn, args, bindings, f.st, f.cur, f.depth+1, false)
 		if r.noRet {
 			f.dead = true
@@ -192,6 +192,26 @@ func (prog *Program) isRepoFunc(fn *ssa.Function) bool {
 		return false
 	}
 	return strings.HasPrefix(fn.Pkg.Pkg.Path(), "github.com/containerd/nri")
+}
+
+// inlineLib: library functions whose bodies are executed symbolically (small generic helpers);
+// every other function outside the repository is an external call (arbitrary result, ghost-logged).
+func (prog *Program) inlineLib(fn *ssa.Function) bool {
+	if fn.Pkg == nil {
+		// instantiated generics have no package: decide by the origin
+		if o := fn.Origin(); o != nil && o.Pkg != nil {
+			switch o.Pkg.Pkg.Path() {
+			case "slices", "maps", "cmp":
+				return true
+			}
+		}
+		return strings.HasSuffix(fn.Name(), "$bound") || strings.HasSuffix(fn.Name(), "$thunk")
+	}
+	switch fn.Pkg.Pkg.Path() {
+	case "slices", "maps", "cmp":
+		return true
+	}
+	return false
 }
 
 func inlinable(fn *ssa.Function) bool {
@@ -377,6 +397,16 @@ func (x *Exec) havocModifies(f *frame, ct *Contract, env *Env, pre *State) {
 	h := x.heap
 	na := x.vc.Const("alloc.call", "Int")
 	f.assume(app(">=", na, h.alloc(f.st)))
+	if ct.ModStatic && ct.Fn != nil {
+		x.vc.Assume["static write set used as frame of "+ct.Key+" (whole heap variables havocked at call sites)"] = true
+		for _, k := range sortedKeys(x.staticWrites(ct.Fn)) {
+			if k == allocKey {
+				continue
+			}
+			f.st.heap[k] = x.vc.Const("hv."+k, h.sorts[k])
+			f.assume(h.nilFacts(k, f.st.heap[k]))
+		}
+	}
 	for i := range ct.Modifies {
 		mts := x.resolveModifies(env.inState(pre), &ct.Modifies[i])
 		for _, mt := range mts {
